@@ -646,6 +646,10 @@ class BaseRequest(MutableMapping[str | RequestKey[Any], Any], HeadersMixin):
 
             if start is None and end is not None:
                 # end with no start is to return tail of content
+                if end == 0:
+                    # A zero-length suffix selects nothing; slice(-0, None)
+                    # would select the whole content instead.
+                    raise ValueError("suffix-length cannot be zero")
                 start = -end
                 end = None
 
